@@ -50,8 +50,22 @@ SELECTIONS = [
 
 def _event(k):
     sub = {"__typename__": "Obj", "id": "s%d" % k, "x": 100 + k, "y": 200 + k, "o": None, "l": []}
-    ev = {"__typename__": "Obj", "id": "e%d" % k, "x": 10 * k + 1, "y": 10 * k + 2, "o": sub, "l": [sub]}
+    who = {"__typename__": "Obj" if k % 2 == 0 else "Other", "id": "w%d" % k, "x": 7 + k, "y": 8 + k, "z": 9 + k}
+    ev = {"__typename__": "Obj", "id": "e%d" % k, "x": 10 * k + 1, "y": 10 * k + 2, "o": sub, "l": [sub], "who": who}
     return {"ev": ev, "tick": k}
+
+
+def _update_in_place(target, fresh):
+    """make ``target`` equal to ``fresh`` while keeping the identity of every nested dict / list"""
+    for key in list(target):
+        if key not in fresh:
+            del target[key]
+    for key, val in fresh.items():
+        cur = target.get(key)
+        if isinstance(val, dict) and isinstance(cur, dict):
+            _update_in_place(cur, val)
+        else:
+            target[key] = val
 
 
 def cases(tier):
@@ -71,6 +85,12 @@ def cases(tier):
             for rk in ("sync", "async"):
                 yield {"kind": "stream", "sel": "tick(step: $s)", "vardefs": "($s: Int = 3)", "variables": variables,
                        "custom": {"Subscription.tick": "async"}, "n": n, "mode": "deferred", "resolver": rk}
+    # the same event OBJECT re-emitted after in-place mutation (identity-keyed memoisation must not leak between events)
+    for n in (2, 3):
+        for sel, custom in (("ev { x who { id ... on Obj { x } ... on Other { z } } }", {"Obj.x": "async"}),
+                            ("ev { x y }", {}), ("ev { who { __typename id } l { x } }", {"Obj.x": "sync"})):
+            for rk in ("sync", "async"):
+                yield {"kind": "stream", "sel": sel, "custom": custom, "n": n, "mode": "same-object", "resolver": rk}
     # several subscription operations in one document, selected by name
     for n in (1, 2):
         for opname in ("Second", "First"):
@@ -94,6 +114,7 @@ class Source:
         self.k = 0
         self.pulls = 0
         self.none_at = none_at
+        self.shared = None
 
     def __aiter__(self):
         return self
@@ -109,7 +130,16 @@ class Source:
             raise StopAsyncIteration
         self.world.event_index = k
         self.world.ev("event", k)
-        return None if self.none_at == k else _event(k)
+        if self.none_at == k:
+            return None
+        if self.mode == "same-object":
+            # a state object re-emitted after being mutated in place: same identity, new content
+            if self.shared is None:
+                self.shared = _event(k)
+            else:
+                _update_in_place(self.shared, _event(k))
+            return self.shared
+        return _event(k)
 
 
 class FalsySource(Source):
